@@ -125,7 +125,7 @@ def run(tier, seed, replay=None):
     res = C.Result("C05", tier, seed)
     res.rule = ("valid files of every format (written by the library's own writers or by the model) are mutated: every prefix of the first 72 bytes and 21 longer prefixes, every 32-bit "
                 "field of the first 320 bytes and sampled later fields set to 0, 1, 2, 2^15-1, 2^16-1, 2^16, 2^31-1, 2^31, 2^32-2, 2^32-1, size-1, size, size+1 and the distance to the end, "
-                "every single byte of files below 12 KB set to 0xff, chunk deletion / duplication / swap / size+1 / size=2^32-1 for the chunked formats, and random havoc; each mutant is given to the public entry points (Archive::open, "
+                "every single byte of files below 12 KB set to 0xff, chunk deletion / duplication / swap / size+1 / size=2^32-1 for the chunked formats, random havoc, codec streams made of runs of each codec's control bytes, and (attributes) contents of every flag combination cut short or over-long; each mutant is given to the public entry points (Archive::open, "
                 "list, read_file of up to 40 files, get_info, verify_signature; PatchFile::parse + apply_patch; parse_m2, parse_skin, AnimFile::parse; parse_adt; parse_wmo; parse_blp + "
                 "blp_to_image; DbcParser::parse_bytes + parse_records; WdtReader::read; WdlParser::parse) in a forked child with a CPU limit of 5 s and an address-space limit of 2 GiB: "
                 "any panic, abort, segmentation fault, time-out or allocation failure is a violation; header admission of the model against validate_header_security on boundary "
@@ -153,6 +153,47 @@ def run(tier, seed, replay=None):
                     continue
                 lines.append("parse %s %s" % (fmt, C.hexs(m)))
                 meta.append((fmt, si, name, len(m)))
+    # ---- directed families that byte mutations of whole files do not reach
+    # (a) codec streams made of runs of the control bytes of each codec (mask, expected size, payload)
+    ctl = {0x40: [0x80, 0x81, 0x00, 0x7f], 0x80: [0x80, 0x81, 0x00, 0x7f], 0x20: [0x7f, 0x80, 0xff, 0x00], 0x01: [0x00, 0xff, 0x80], 0x08: [0x00, 0x04, 0x05, 0x06, 0xff]}
+    for mask, cb in ctl.items():
+        for _ in range(400 if big else 120):
+            body = bytearray()
+            if mask in (0x40, 0x80):
+                body += bytes([0, r.choice([0, 1, 4, 8, 0x20])]) + bytes(r.randrange(256) for _ in range(2 if mask == 0x40 else 4))
+            elif mask == 0x08:
+                body += bytes([r.choice([0, 1]), r.choice([4, 5, 6])])
+            elif mask == 0x01:
+                body += bytes([r.choice([0, 1, 2, 3, 4, 5, 6, 7, 8])])
+            for _ in range(r.randrange(1, 5)):
+                body += bytes([r.choice(cb)]) * r.randrange(1, 40)
+            body += bytes(r.randrange(256) for _ in range(r.choice([0, 1, 2, 9])))
+            size = r.choice([0, 1, 50, 512, 4096, 100000])
+            lines.append("parse codec %02x%s%s" % (mask, size.to_bytes(4, "little").hex(), bytes(body).hex()))
+            meta.append(("codec", mask, "control-runs", len(body)))
+    # (a') ADPCM step-index walks: k step-down markers, j step-up markers, then samples (every k <= 47, j <= 12: all ways to sit at or beyond either end of the step table)
+    for mask in (0x40, 0x80):
+        for k in range(0, 48):
+            for j in range(0, 13):
+                body = bytes([0, 8]) + bytes([0x10, 0x20] * (1 if mask == 0x40 else 2)) + bytes([0x80]) * k + bytes([0x81]) * j + bytes([0x01, 0x7e, 0x3f, 0x40])
+                lines.append("parse codec %02x%s%s" % (mask, (600).to_bytes(4, "little").hex(), body.hex()))
+                meta.append(("codec", mask, "adpcm-walk-%d-%d" % (k, j), len(body)))
+    # (b) (attributes) contents of every flag combination, complete, cut short by 1..9 bytes and over-long, for several block counts
+    for nblk in (1, 3, 8, 9, 13, 16):
+        for flags in range(16):
+            full = (100).to_bytes(4, "little") + flags.to_bytes(4, "little")
+            if flags & 1:
+                full += bytes(r.randrange(256) for _ in range(4 * nblk))
+            if flags & 2:
+                full += bytes(r.randrange(256) for _ in range(8 * nblk))
+            if flags & 4:
+                full += bytes(r.randrange(256) for _ in range(16 * nblk))
+            if flags & 8:
+                full += bytes(r.randrange(256) for _ in range((nblk + 7) // 8))
+            for cut in (0, 1, 2, 3, 4, 9, -1, -5):
+                dta = full[:len(full) - cut] if cut >= 0 else full + bytes(-cut)
+                lines.append("parse attrs %s%s" % (nblk.to_bytes(4, "little").hex(), dta.hex()))
+                meta.append(("attrs", nblk, "flags%x-cut%d" % (flags, cut), len(dta)))
     order = list(range(len(lines)))
     r.shuffle(order)
     outs_sh = C.run_lines([C.bin_path("impl_fuzz")], [lines[i] for i in order], shards=C.NPROC, timeout=3000, env={"VERIF_TMP": base, "MALLOC_ARENA_MAX": "1", "RAYON_NUM_THREADS": "2"})
